@@ -359,6 +359,25 @@ func registerIntrinsics(e *Engine) {
 		ret(r)
 	}
 
+	// context.WithValue(parent, key, val): the real function inspects the key through reflectlite (comparable
+	// check); the result is a *valueCtx{parent, key, val}, whose Value method is executed as real code
+	e.intr["context.WithValue"] = func(st *State, fn *ssa.Function, args []Value, ret func(Value)) {
+		cp := e.prog.ImportedPackage("context")
+		if cp == nil || cp.Type("valueCtx") == nil {
+			st.unsupported("context.valueCtx not available")
+		}
+		vt := cp.Type("valueCtx").Type()
+		id := st.allocN(e.sizeof(vt), vt, "context.valueCtx")
+		p := Ptr{id, e.k64(0)}
+		stt := under(vt).(*types.Struct)
+		offs := e.fieldOffsets(stt)
+		// fields: Context (embedded), key, val - the argument order
+		for i := 0; i < stt.NumFields() && i < len(args); i++ {
+			st.store(Ptr{id, e.k64(offs[i])}, stt.Field(i).Type(), args[i])
+		}
+		ret(Iface{Dyn: types.NewPointer(vt), V: p})
+	}
+
 	// ---- math: the assembly kernels are replaced by the package's own portable Go versions ----
 	for arch, pure := range map[string]string{"archTrunc": "trunc", "archFloor": "floor", "archCeil": "ceil", "archModf": "modf"} {
 		pure := pure
